@@ -566,7 +566,97 @@ func gen() ([]byte, error) {
 		}
 	}
 	writeList(&b, "marshal_flows", "marshal_flow", flows)
+
+	// (g) shape of NewCryptoReadWriter: the cipher must be built for every key value
+	cf, err := parseOne("pkg/util/net/conn.go")
+	if err != nil {
+		return nil, err
+	}
+	fmt.Fprintf(&b, "Definition crypto_rw_shape : crw_shape := %s.\n", crwShape(cf))
 	return b.Bytes(), nil
+}
+
+// crwShape accepts exactly: <r> := crypto.NewReader(rw, key); <w>, err := crypto.NewWriter(rw, key);
+// if err != nil { return nil, err }; return struct{...}{Reader: <r>, Writer: <w>}, nil
+// (in this order of appearance, names free).  Any other statement, in particular any other return,
+// gives CrwUnknown.
+func crwShape(f *ast.File) string {
+	unknown := func(why string) string { return "(CrwUnknown " + q(why) + ")" }
+	for _, d := range f.Decls {
+		fd, ok := d.(*ast.FuncDecl)
+		if !ok || fd.Name.Name != "NewCryptoReadWriter" || fd.Body == nil {
+			continue
+		}
+		if fd.Type.Params == nil || len(fd.Type.Params.List) != 2 || len(fd.Type.Params.List[0].Names) != 1 || len(fd.Type.Params.List[1].Names) != 1 {
+			return unknown("parameters")
+		}
+		rw, key := fd.Type.Params.List[0].Names[0].Name, fd.Type.Params.List[1].Names[0].Name
+		isCall := func(e ast.Expr, fn string) bool {
+			c, ok := e.(*ast.CallExpr)
+			if !ok || !isSel(c.Fun, "crypto", fn) || len(c.Args) != 2 {
+				return false
+			}
+			a, ok1 := c.Args[0].(*ast.Ident)
+			k, ok2 := c.Args[1].(*ast.Ident)
+			return ok1 && ok2 && a.Name == rw && k.Name == key
+		}
+		reader, writer, errv := "", "", ""
+		sawErrCheck, sawReturn := false, false
+		for _, st := range fd.Body.List {
+			if sawReturn {
+				return unknown("statement after the final return")
+			}
+			switch x := st.(type) {
+			case *ast.AssignStmt:
+				switch {
+				case len(x.Lhs) == 1 && len(x.Rhs) == 1 && isCall(x.Rhs[0], "NewReader") && reader == "":
+					reader = lastName(x.Lhs[0])
+				case len(x.Lhs) == 2 && len(x.Rhs) == 1 && isCall(x.Rhs[0], "NewWriter") && writer == "":
+					writer, errv = lastName(x.Lhs[0]), lastName(x.Lhs[1])
+				default:
+					return unknown(text(st))
+				}
+			case *ast.IfStmt:
+				// if err != nil { return nil, err }
+				be, ok := x.Cond.(*ast.BinaryExpr)
+				if !ok || x.Init != nil || x.Else != nil || errv == "" || lastName(be.X) != errv || be.Op != token.NEQ || lastName(be.Y) != "nil" || len(x.Body.List) != 1 {
+					return unknown(text(x.Cond))
+				}
+				r, ok := x.Body.List[0].(*ast.ReturnStmt)
+				if !ok || len(r.Results) != 2 || lastName(r.Results[0]) != "nil" || lastName(r.Results[1]) != errv {
+					return unknown("return inside " + text(x.Cond))
+				}
+				sawErrCheck = true
+			case *ast.ReturnStmt:
+				if len(x.Results) != 2 || lastName(x.Results[1]) != "nil" {
+					return unknown(text(st))
+				}
+				cl, ok := x.Results[0].(*ast.CompositeLit)
+				if !ok || len(cl.Elts) != 2 {
+					return unknown(text(st))
+				}
+				got := map[string]string{}
+				for _, el := range cl.Elts {
+					kv, ok := el.(*ast.KeyValueExpr)
+					if !ok {
+						return unknown(text(st))
+					}
+					got[lastName(kv.Key)] = lastName(kv.Value)
+				}
+				if reader == "" || writer == "" || got["Reader"] != reader || got["Writer"] != writer {
+					return unknown(text(st))
+				}
+				sawReturn = true
+			default:
+				return unknown(text(st))
+			}
+		}
+		if !sawReturn || !sawErrCheck {
+			return unknown("no final return of the cipher pair")
+		}
+		return "CrwAlways"
+	}
+	return unknown("NewCryptoReadWriter not found")
 }
 
 func isErrCheck(e ast.Expr) bool {
